@@ -544,6 +544,7 @@ pub fn esc_text(s: &str) -> String {
             '<' => o.push_str("&lt;"),
             '>' => o.push_str("&gt;"),
             '&' => o.push_str("&amp;"),
+            '\r' => o.push_str("&#13;"),
             c => o.push(c),
         }
     }
@@ -558,6 +559,7 @@ pub fn esc_attr(s: &str) -> String {
             '"' => o.push_str("&quot;"),
             '\n' => o.push_str("&#10;"),
             '\t' => o.push_str("&#9;"),
+            '\r' => o.push_str("&#13;"),
             c => o.push(c),
         }
     }
@@ -565,7 +567,8 @@ pub fn esc_attr(s: &str) -> String {
 }
 /// CDATA with "]]>" split across sections
 pub fn cdata(s: &str) -> String {
-    format!("<![CDATA[{}]]>", s.replace("]]>", "]]]]><![CDATA[>"))
+    // a carriage return survives only as a character reference, i.e. outside of CDATA
+    format!("<![CDATA[{}]]>", s.replace("]]>", "]]]]><![CDATA[>").replace('\r', "]]>&#13;<![CDATA["))
 }
 
 #[cfg(test)]
